@@ -609,7 +609,12 @@ def check_hypotheses(ctx, items):
             n += 1
             if rep != 'OK T T':
                 bad.append(dict(text=label, with_comments=wc, indent=ind, reply=rep))
-    ctx.obligation('hypotheses of ends_with_one_newline_partial (tailSafe, tokensCleanB) hold on every parsed program', not bad,
+        rep = drv.ask('treeok indent N %s' % line)
+        ctx.bump('treeok:' + rep)
+        if not rep.startswith('OK T T'):
+            bad.append(dict(text=label, with_comments=wc, reply=rep, what='valAll lineSafe / braceFree'))
+    ctx.obligation('hypotheses of ends_with_one_newline_partial (tailSafe, tokensCleanB), other_lines_are_token_interiors '
+                   '(valAll lineSafe) and level_is_structural_depth (valAll braceFree) hold on every parsed program', not bad,
                    'tie', '%d (tree, indent) pairs; first failures: %r' % (n, bad[:2]))
 
 
